@@ -70,6 +70,13 @@ class StateTable:
     def has_now(self, ent, q):
         return self.has(self.notify.cols, ent, q)
 
+    def I_fresh(self):
+        """Representation invariant of the two tables: a remembered last value belongs to an entity that still has an entry in
+        `notify` - State.update refreshes notify_var_last exactly for the keys of `notify`, and notify_var_get prefers the
+        remembered value to the live state, so a remembered value outside `notify` would be served stale for ever."""
+        N, L = self.notify.cols, self.last.cols
+        return Forall([NameS], lambda n: z3.Implies(z3.Select(L["dom"], n), z3.Select(N["dom"], n)), "I_fresh")
+
     def frame_other_queues(self, N0, q):
         return Forall([NameS, QueueS], lambda e, q2: z3.Implies(
             q2 != q, self.has(self.notify.cols, e, q2) == self.has(N0, e, q2)), "eq")
